@@ -25,9 +25,8 @@ pub struct Tok {
     pub col: u32,
     /// the spelling of a numeric literal (0x10, 007); empty for other tokens
     pub text: String,
-    /// C: this name was met while its macro was being replaced and is never replaced again.
-    /// RSSL keeps no such mark, so meeting a marked name where RSSL would replace it is outside
-    /// the common subset.
+    /// this name was met while its macro was being replaced and is never replaced again,
+    /// wherever it is examined later (C 6.10.3.4p2)
     pub painted: bool,
 }
 
@@ -425,9 +424,7 @@ impl State<'_> {
             return Ok(false);
         }
         if out.last().is_some_and(|t| t.painted) {
-            return Err(Stop::Unmodelled(
-                "a name C has marked as not replaceable is met again where its macro is enabled".into(),
-            ));
+            return Ok(false);
         }
         if out.len() <= before_len {
             // the replacement was empty and the name stood in front of it: C does not go back to
@@ -485,6 +482,12 @@ impl State<'_> {
                 i += 1;
                 continue;
             }
+            if t.painted {
+                // marked earlier: never replaced again, wherever it is examined
+                out.push(t.clone());
+                i += 1;
+                continue;
+            }
             if let Atom::Id(name) = &t.atom
                 && let Some(m) = self.macros.iter().find(|m| &m.name == name)
             {
@@ -493,16 +496,8 @@ impl State<'_> {
                         "an argument names a macro that is being expanded around it".into(),
                     ));
                 }
-                let marked = || {
-                    Err(Stop::Unmodelled(
-                        "a name C has marked as not replaceable is met again where its macro is enabled".into(),
-                    ))
-                };
                 match &m.body {
                     Body::Object(body) => {
-                        if t.painted {
-                            return marked();
-                        }
                         let before_len = out.len();
                         disabled.push(name.clone());
                         let r = self.expand_guarded(body, disabled, forbidden, out);
@@ -529,9 +524,6 @@ impl State<'_> {
                             out.push(t.clone());
                             i += 1;
                             continue;
-                        }
-                        if t.painted {
-                            return marked();
                         }
                         // split the arguments at commas outside nested parentheses
                         let mut args: Vec<Vec<Tok>> = vec![Vec::new()];
@@ -631,9 +623,6 @@ impl State<'_> {
                             out.push(t.clone());
                             i += 1;
                             continue;
-                        }
-                        if t.painted {
-                            return marked();
                         }
                         let shape_ok = toks.len() >= i + 6
                             && toks[i + 3].atom == Atom::Punct(',')
